@@ -213,12 +213,17 @@ class Ctx(object):
         self.facts = {}
         self.broken = []  # names of obligations that no longer check
         self.searching = False
+        self.escalated = False  # the source the property is anchored in differs from the pinned one: thorough budgets
+        self.changed_sources = []
 
     # budgets -------------------------------------------------------------------------------
     def budget(self, quick, thorough):
         n = thorough if self.tier == "thorough" else quick
         if self.searching:
             n = max(n, thorough)
+        elif self.escalated:
+            # changed source: a deeper look, but bounded so that a quick run stays a quick run
+            n = max(n, min(thorough, 6 * quick))
         return n
 
     @property
@@ -313,6 +318,8 @@ def write_evidence(ctx, obligations, discharged, axioms, n_viol, checker_cmd, le
         "disagreements_checked": len(ctx.disagreements),
         "distribution": dict(ctx.hist),
         "exhaustive": bool(ctx.exhaustive),
+        "changed_sources": ctx.changed_sources,
+        "escalated_to_thorough_budgets": bool(ctx.escalated),
     }
     cov.update(ctx.extra)
     ev = {
@@ -373,6 +380,34 @@ def prepare(pid, required):
     return facts, obligations, discharged, axioms, broken, (build_out if not ok else "")
 
 
+def anchor_files(pid):
+    try:
+        for ln in open(os.path.join(ROOT, "properties.jsonl")):
+            p = json.loads(ln)
+            if p["id"] == pid:
+                return [os.path.splitext(os.path.basename(f))[0] for f in p["anchors"]["files"]]
+    except OSError:
+        pass
+    return []
+
+
+def changed_sources(pid, facts):
+    """Functions of the files the property is anchored in whose normalised AST differs from the pinned digest."""
+    try:
+        pinned = json.load(open(os.path.join(ROOT, "tools", "model_pins.json")))
+    except (OSError, ValueError):
+        return []
+    now = facts.get("sourcePinCount")
+    if not isinstance(now, dict):
+        return []
+    mods = set(anchor_files(pid))
+    out = []
+    for k in sorted(set(pinned) | set(now)):
+        if k.split(".")[0] in mods and pinned.get(k) != now.get(k):
+            out.append(k)
+    return out
+
+
 def leanchecker(pid):
     rc, out = sh(["lake", "env", "leanchecker", "JRV.Properties." + pid], cwd=LEAN, timeout=3600)
     return rc == 0, out
@@ -386,6 +421,11 @@ def run_check(pid, module, tier, seed):
         facts, obligations, discharged, axioms, broken, build_out = prepare(pid, getattr(module, "REQUIRED_THEOREMS", []))
         ctx.facts = facts
         ctx.broken = broken
+        ctx.changed_sources = changed_sources(pid, facts)
+        if ctx.changed_sources and not os.environ.get("VERIF_NO_ESCALATE"):
+            ctx.escalated = True
+            log("source anchored by %s differs from tools/model_pins.json (%s): running with thorough budgets"
+                % (pid, ", ".join(ctx.changed_sources[:6])))
         if tier == "thorough" and not broken:
             ok, out = leanchecker(pid)
             checker_cmd += " && lake env leanchecker JRV.Properties.%s" % pid
